@@ -61,6 +61,13 @@ CLAIMED = {
         'Necessary conditions of a faithful, independent copy; serialisation equality is not executed.',
    note='Trusted: clang AST; setter-writes-field computed from setter bodies. Known finding: clones share the ImportSource (pinned by Clone.modelWithImportedItems). Three clone defects were repaired (fix commits).',
    ref='DESIGN.md section 4, C11'),
+ 'C12': dict(
+   technique='static analysis: set/restore pairing of process-global libxml2 setters on all exits, dominance of removeAllIssues, unconditional re-initialisation of service state, effect/provenance scan of read-only services',
+   text='Every libxml2 process-global setter call is paired with a restore of the saved value on every exit; each entry point empties its issue list before any issue can be added; every service Impl field written during a call is '
+        'unconditionally re-initialised before its first use in that call (documented state exempt, each with its reason); no state-changing entity method is called from Printer/Validator/Analyser/Generator on an object that was not created inside the service. '
+        'Necessary conditions of purity; equality of results across histories is not executed.',
+   note='Trusted: clang AST/CFG/call graph; "state-changing" is computed from method bodies. Known findings: three unrestored xmlKeepBlanksDefault calls (pinned by Parser.parseResets).',
+   ref='DESIGN.md section 4, C12'),
  'C16': dict(
    technique='static analysis: recogniser non-vacuity, grammar terminals read from the AST, exception-channel screening of std::sto*, use-site branch rules',
    text='Decides on all paths of the recognisers/conversions: no acceptance through std::all_of over an empty string; sign/digit/point/e-marker sets and count bounds equal the CellML grammar; '
